@@ -248,12 +248,32 @@ func (e *Engine) evalType(pkg string, text string) (types.Type, error) {
 		return types.NewArray(et, 0), nil
 	}
 	tp := e.pkgByNm[pkg]
-	if tp == nil {
-		return nil, fmt.Errorf("unknown package %s", pkg)
+	var tv types.TypeAndValue
+	var err error
+	if tp != nil {
+		tv, err = types.Eval(e.fset, tp, token.NoPos, text)
 	}
-	tv, err := types.Eval(e.fset, tp, token.NoPos, text)
-	if err != nil {
-		return nil, fmt.Errorf("type %q in %s: %v", text, pkg, err)
+	if tp == nil || err != nil {
+		// an assumed contract on a dependency (package io, say) may name a type of
+		// the packages under contract: look there, in a fixed order
+		var names []string
+		for n := range e.pkgByNm {
+			names = append(names, n)
+		}
+		sort.Strings(names)
+		found := false
+		for _, n := range names {
+			if tv2, err2 := types.Eval(e.fset, e.pkgByNm[n], token.NoPos, text); err2 == nil && tv2.IsType() {
+				tv, err, found = tv2, nil, true
+				break
+			}
+		}
+		if !found {
+			if tp == nil {
+				return nil, fmt.Errorf("unknown package %s", pkg)
+			}
+			return nil, fmt.Errorf("type %q in %s: %v", text, pkg, err)
+		}
 	}
 	if !tv.IsType() {
 		return nil, fmt.Errorf("%q is not a type", text)
